@@ -245,7 +245,9 @@ def gen_maxwarn(rng):
             elif r < 0.6:
                 out.append(rng.choice(types))
             else:
-                out.append('%s:%d' % (rng.choice(types), rng.choice([0, 1, 2, 3, 10, -2])))
+                # an empty type name (what a wrapper script passes for "${TYPE}:5" with TYPE unset) is a type that
+                # never occurs, not the blanket allowance
+                out.append('%s:%d' % (rng.choice(types + ['']), rng.choice([0, 1, 2, 3, 10, -2])))
     return out
 
 
